@@ -74,7 +74,7 @@ func Run(cfg hx.Config) (*hx.Meta, error) {
 	// 2. generated packages with a plan: outcomes x flags x renamings x formatting
 	n := 21
 	if cfg.Tier == "thorough" {
-		n = 150
+		n = 300
 	}
 	for i := 0; i < n; i++ {
 		o := genOpts{
